@@ -184,7 +184,7 @@ def proj_cases(draw):
     else:
         desc = dict(kind=kind, t=draw(st.sampled_from([0.3, 0.785, 1.2, -0.5])))
     holes = []
-    hole_kind = draw(st.sampled_from(["none", "interior", "corner", "edge"]))
+    hole_kind = draw(st.sampled_from(["none", "interior", "corner", "edge", "line"]))
     if hole_kind == "interior" and nr >= 4 and nc >= 4:
         holes = draw(st.lists(st.tuples(st.integers(1, nr - 2), st.integers(1, nc - 2)), min_size=1, max_size=3, unique=True))
         holes = [list(h) for h in holes]
@@ -193,6 +193,14 @@ def proj_cases(draw):
         hr, hc = draw(st.integers(1, 2)), draw(st.integers(1, 2))
         top, right = draw(st.booleans()), draw(st.booleans())
         holes = [[(nr - 1 - i) if top else i, (nc - 1 - j) if right else j] for i in range(hr) for j in range(hc)]
+    elif hole_kind == "line" and nr >= 4 and nc >= 4:
+        # a complete interior row or column of missing values (a lost scan line): the grid keeps its shape
+        if draw(st.booleans()):
+            i = draw(st.integers(1, nr - 2))
+            holes = [[i, j] for j in range(nc)]
+        else:
+            j = draw(st.integers(1, nc - 2))
+            holes = [[i, j] for i in range(nr)]
     elif hole_kind == "edge" and nr >= 4 and nc >= 4:
         j = draw(st.integers(1, nc - 2))
         holes = [[0, j]] if draw(st.booleans()) else [[draw(st.integers(1, nr - 2)), nc - 1]]
